@@ -51,13 +51,15 @@ for _t in (IN1, IN2, IN3):
     _b = tuple(f.vals[1] for _, f in _t.inner)
     _c = tuple(f.vals[-1] for _, f in _t.inner)
     _t.vals = [_b, _c]
-OU8 = FT("ou8", "DiplomatOption<u8>", "DiplomatOption<u8>", "option", [None, 0xA5], inner=U8)
-OU16 = FT("ou16", "DiplomatOption<u16>", "DiplomatOption<u16>", "option", [None, 0x0102], inner=U16)
-OU64 = FT("ou64", "DiplomatOption<u64>", "DiplomatOption<u64>", "option", [None, 0x0102030405060708], inner=U64)
+# Some(falsy JS value) - 0, false, 0n - must stay Some
+OU8 = FT("ou8", "DiplomatOption<u8>", "DiplomatOption<u8>", "option", [None, 0, 0xA5], inner=U8)
+OBOOL = FT("obool", "DiplomatOption<bool>", "DiplomatOption<bool>", "option", [None, False, True], inner=BOOL)
+OU16 = FT("ou16", "DiplomatOption<u16>", "DiplomatOption<u16>", "option", [None, 0, 0x0102], inner=U16)
+OU64 = FT("ou64", "DiplomatOption<u64>", "DiplomatOption<u64>", "option", [None, 0, 0x0102030405060708], inner=U64)
 OEN = FT("oen", "DiplomatOption<En>", "DiplomatOption<En>", "option", [None, 2], inner=EN)
 OIN2 = FT("oin2", "DiplomatOption<In2>", "DiplomatOption<In2>", "option", [None, (7, 0xDEADBEEF)], inner=IN2)
 
-ALPHABET = [U8, I16, U32, U64, F32, F64, BOOL, CHAR, USIZE, EN, OP, OOP, SL8, S16, IN1, IN2, IN3, OU8, OU16, OU64, OEN, OIN2]
+ALPHABET = [U8, I16, U32, U64, F32, F64, BOOL, CHAR, USIZE, EN, OP, OOP, SL8, S16, IN1, IN2, IN3, OU8, OU16, OU64, OEN, OIN2, OBOOL]
 ALPHA12 = [U8, I16, U32, U64, F64, BOOL, EN, OP, SL8, IN2, OU16, OIN2]
 ALPHA6 = [U8, I16, U32, U64, IN2, OU8]
 NESTED = {"In1": IN1, "In2": IN2, "In3": IN3}
@@ -154,7 +156,7 @@ def oracle_source(structs):
         fs = NESTED[t].inner
         L.append('    println!("\\"%s\\": {{\\"size\\": {}, \\"align\\": {}, \\"offsets\\": [%s]}},", size_of::<%s>(), align_of::<%s>(), %s);'
                  % (t, ", ".join("{}" for _ in fs), t, t, ", ".join("offset_of!(%s, %s)" % (t, n) for n, _ in fs)))
-    for o in (OU8, OU16, OU64, OEN, OIN2):
+    for o in (OU8, OU16, OU64, OEN, OIN2, OBOOL):
         L.append('    println!("\\"%s\\": {{\\"size\\": {}, \\"align\\": {}, \\"flag\\": {}}},", size_of::<%s>(), align_of::<%s>(), offset_of!(%s, is_ok));'
                  % (o.oracle, o.oracle, o.oracle, o.oracle))
     for s in structs:
